@@ -327,6 +327,8 @@ def prim_is(I, st, a, b):
         other = a if b is UNSET else b
         return SB(other is UNSET) if not isinstance(other, ErrFieldRef) else other.is_unset()
     for x, y in ((a, b), (b, a)):
+        if isinstance(y, SV) and y.known and (y.conc is None or isinstance(y.conc, bool)) and isinstance(x, SV) and x.known:
+            return SB(x.conc is y.conc)
         if isinstance(y, SV) and y.known and y.conc is None:
             if isinstance(x, SV):
                 return SB(smt.kd(x.t, K_NONE))
@@ -1203,6 +1205,11 @@ def find_method(I, cls, name):
 def sv_method(I, st, obj, name, args, kwargs):
     ctx = I.ctx
     t = obj.t
+    if name == "get" and obj.known and isinstance(obj.conc, dict) and isinstance(args[0], SV) and args[0].known:
+        from spec.ops import lift_json
+        if args[0].conc in obj.conc:
+            return [(st, lift_json(obj.conc[args[0].conc]))]
+        return [(st, args[1] if len(args) > 1 else lift(None))]
     if name == "get":
         k = to_sv(args[0])
         default = args[1] if len(args) > 1 else lift(None)
